@@ -1072,11 +1072,11 @@ def run(ctx):
     ctx.assume("all children arrays handed to compute_log_S share one shape (samples, grid); numpy indexing semantics")
     ctx.assume("networkx DiGraph.successors(node) enumerates the same order on every call while the edge set is unchanged")
     info = {}
-    rule_X1(ctx, info)
-    rule_X2(ctx, info)
-    rule_X3(ctx, info)
-    rule_X4(ctx, info)
-    rule_X5(ctx, info)
+    ctx.soft(rule_X1, info)
+    ctx.soft(rule_X2, info)
+    ctx.soft(rule_X3, info)
+    ctx.soft(rule_X4, info)
+    ctx.soft(rule_X5, info)
     # the recursion and the traceback run on the networkx copy of the tree: it must hold every node (an edgeless
     # all-outlier tree included) with its payload (same rule object as C12.N1)
     from ..formula import imported
